@@ -49,7 +49,8 @@ def fs17Case (id : String) (payload : List Sexp) : List String :=
     | _ => []
   match parseCmd (fsStr p "cmd"), mapIdx parseOut (sub "outs"), (sub "listing").mapM parseFileInfo, (sub "init").mapM parseInit with
   | some cmd, some outs, some listing, some init =>
-    -- `tmpfail`: the temp name exceeds NAME_MAX, os.CreateTemp fails: logx.Fatalf before anything is written (exit 1)
+    -- `tmpfail`: notedownSrc fails without any fault injection — the temp name exceeds NAME_MAX (os.CreateTemp fails) or the output
+    -- name is taken by a directory (os.Rename fails, the temp file is removed): logx.Fatalf, exit 1, the directory is as before
     let tmpfail := p.hasFlag "tmpfail"
     let c : Config := { cmd := cmd, pkgPrefix := fsStr p "pkg",
                         outs := if tmpfail then [] else outs, cleanActive := p.hasFlag "clean", genfile := fsStr p "genfile", listing := listing }
@@ -77,19 +78,26 @@ def fs17Case (id : String) (payload : List Sexp) : List String :=
       init.all (fun e => s.data e.2 == s0.data e.2))
     let sEnd := exec s0 ops
     let notemp := tm.all (fun t => (sEnd.dir t).isNone)
+    -- every way a run can end by itself after i completed outputs: no temp path is left
+    let faultNoTemp := (List.range txns.length).all (fun i =>
+      match txns[i]? with
+      | none => true
+      | some y =>
+        [Ending.writeFailed y 0, Ending.writeFailed y 1, Ending.renameFailed y, Ending.createFailed, Ending.complete 0].all (fun e =>
+          let s := exec s0 (selfRun (txns.take i) rms e)
+          tm.all (fun t => !(txns.take i).any (fun x => x.tmp == t) && t != y.tmp || (s.dir t).isNone)))
     let model : List (String × String) :=
-      [ ("ops", dash (sortStrs (tg.map (fun t => "txn:" ++ t)) ++ rms.map (fun r => "rm:" ++ r))),
+      [ ("ops", if p.hasFlag "blocked" then "abort" else dash (sortStrs (tg.map (fun t => "txn:" ++ t)) ++ rms.map (fun r => "rm:" ++ r))),
         ("created", dash (sortStrs tg)),
         ("removed", dash (sortStrs rms)),
         ("exit", if tmpfail then "1" else "0"),
         ("confined", fsyn confined), ("cleanonly", fsyn cleanonly), ("atomic", fsyn atomic), ("frame", fsyn frame),
         ("hardlink", fsyn hardlink), ("notemp", fsyn notemp), ("reader", "yes"),
-        -- I/O errors: a failed write ends in close + remove(temp) (C17_write_error_cleanup); a failed rename or unlink stops the
-        -- run where it is, i.e. at a crash prefix: the temp file of a failed rename stays (notedownSrc does not remove it)
-        ("fault-atomic", "yes"), ("fault-temp", if txns.isEmpty then "none" else "after-renameat-error") ]
+        -- I/O errors: a failed write or rename ends in remove(temp) (C17_no_temp_after_any_exit), a failed unlink stops Clean
+        ("fault-atomic", "yes"), ("fault-notemp", fsyn faultNoTemp) ]
     let spec : List (String × String) :=
       [ ("confined", "yes"), ("cleanonly", "yes"), ("atomic", "yes"), ("frame", "yes"), ("hardlink", "yes"),
-        ("notemp", "yes"), ("reader", "yes"), ("fault-atomic", "yes") ]
+        ("notemp", "yes"), ("reader", "yes"), ("fault-atomic", "yes"), ("fault-notemp", "yes") ]
     both id model spec (region c).str
   | _, _, _, _ => err id "bad-fs17-case"
 
